@@ -16,7 +16,7 @@ INFIX = ['Dot', 'Pipe', 'Or', 'And', 'Eq', 'Lt']
 INFIX_ALL = ['Dot', 'Pipe', 'Or', 'And', 'Eq', 'Ne', 'Lt', 'Lte', 'Gt', 'Gte']
 OPER = ['Identifier', 'Star', 'At']
 POST = [['Flatten'], ['Lbracket', 'Star', 'Rbracket'], ['Lbracket', 'Number', 'Rbracket'], ['Lbracket', 'Number', 'Colon', 'Rbracket'], ['Filter', 'Identifier', 'Rbracket'], ['Dot', 'Star'],
-        ['Dot', 'Identifier', 'Lparen', 'Rparen'], ['Dot', 'Lbracket', 'Identifier', 'Rbracket']]
+        ['Dot', 'Identifier', 'Lparen', 'Rparen'], ['Dot', 'Lbracket', 'Identifier', 'Rbracket'], ['Dot', 'Identifier']]
 
 def layouts(quick):
     L = []
@@ -33,8 +33,34 @@ def layouts(quick):
             L.append(('post-post', [['Identifier']] + [[k] for k in p1] + [[k] for k in p2] + [INFIX_ALL + ['Identifier'], ['Identifier']]))
     return L
 
+def chains(quick):
+    """concrete operator skeletons: prefix operand, chains of <= 3 postfix forms, optional trailing binary operator"""
+    import itertools
+    pre = [['Identifier'], ['Not', 'Identifier'], ['Identifier', 'Dot', 'Identifier'], ['Star'], ['At'], ['Identifier', 'Or', 'Identifier']]
+    suf = [[], ['Pipe', 'Identifier'], ['Or', 'Identifier'], ['Eq', 'Identifier'], ['Dot', 'Identifier']]
+    out = []
+    for n in (1, 2, 3):
+        for ch in itertools.product(range(len(POST)), repeat=n):
+            body = [k for i in ch for k in POST[i]]
+            for a in pre:
+                for b in suf:
+                    if n == 3 and quick and (a != pre[0] or b not in (suf[0], suf[1])): continue
+                    out.append(a + body + b)
+    return out
+
 def task(item):
     kind = item[0]
+    if kind == 'chains':
+        _, batch, deadline = item
+        S = Summary()
+        for lay in batch:
+            S2 = PJ.parser_job(PROG, lay, deadline, seed=SEED, want_trees=True, label='chain')
+            for k in ('paths', 'queries', 'solver_s', 'replayed'): S[k] += S2[k]
+            S['outcomes'].update(S2['outcomes']); S['cands'] += S2['cands']; S['mismatches'] += S2['mismatches']; S['fns'] |= S2['fns']; S['models'] |= S2['models']
+            for t in S2['inconclusive']: S.inconclusive(t)
+            S['vacuity'].update({k: v or S['vacuity'].get(k, False) for k, v in S2['vacuity'].items()})
+            for x in S2['samples'][:1]: S.sample(x, cap=2)
+        return S
     if kind == 'full':
         _, first, n, deadline = item
         return PJ.parser_job(PROG, [[first]] + [ALL] * (n - 1), deadline, seed=SEED, want_trees=True, label=f'N={n} first={first}')
@@ -79,6 +105,9 @@ def run(run):
     jobs = [('full', k, n, dl) for n in range(N, 0, -1) for k in ALL]
     jobs += [('layout', nm, lay, dl) for nm, lay in lays]
     jobs += [('win', pre, suf, W, dl) for pre, suf in CONTEXTS]
+    ch = chains(quick)
+    jobs += [('chains', ch[i:i + 60], dl) for i in range(0, len(ch), 60)]
+    run.bounds['operator skeletons'] = f'{len(ch)} concrete sentences: operand forms x every chain of <= 3 postfix forms (flatten, [*], [n], [n:], [?x], .*, .f(), .[x]) x trailing binary operator'
     run_jobs(run, jobs, task, f'mirsym: Parser::parse on symbolic token queues vs reference precedence parser')
     run.cands = [c for c in run.cands if c['key'].startswith(('c04:', 'c05:'))]
     run.confirm_all(confirm)
